@@ -109,6 +109,9 @@ def run(ctx):
         t = os.path.join(ctx.work, "listmode.ndjson")
         lib.run_driver(exe_lm, ["lm", t, scratch, 40 if q else 400], env={"VERIF_SEED": str(ctx.seed)}, timeout=900, allow_fail=True)
         fams.append(("lm", "Trace_PoissonLL", [t], 1500 if q else 4000))
+        t = os.path.join(ctx.work, "patlak.ndjson")
+        lib.run_driver(exe, ["patlak", t, scratch, 30 if q else 400], env={"VERIF_SEED": str(ctx.seed)}, timeout=900, allow_fail=True)
+        fams.append(("patlak", "Trace_PoissonLLPatlak", [t], 1500 if q else 3000))
     traces = [t for f in fams for t in f[2]]
     for t in traces:
         if not os.path.exists(t) or os.path.getsize(t) == 0:
@@ -123,7 +126,7 @@ def run(ctx):
                 jobs.append((label, module, c[0]))
     res = _validate_jobs(jobs, W, 1500)
     ctx.notes.append("wall: model checks %.0fs, recording %.0fs, trace validation %.0fs" % (t1 - t0, t3 - t1, time.time() - t3))
-    seen = {"kinds": set(), "tof": set(), "norm": set(), "N": set(), "fill": set(), "flags": set(), "refused": 0, "real_sw": set(), "real_kinds": set(), "lm": set()}
+    seen = {"kinds": set(), "tof": set(), "norm": set(), "N": set(), "fill": set(), "flags": set(), "refused": 0, "real_sw": set(), "real_kinds": set(), "lm": set(), "patlak": set()}
     nobj = 0
     famcount = {}
     for (label, module, p, ok, r, at) in res:
@@ -151,6 +154,8 @@ def run(ctx):
                         ctx.sample({k: rec[k] for k in ("tof", "tofSensAsked", "tofNorm", "additive", "norm", "zero", "maxSegAsked", "uss", "N", "prior", "supplied", "cache", "fill", "family")})
                 elif label == "real":
                     seen["real_sw"].add((tuple(rec["sw"]), rec["tof"], rec["tofSensAsked"]))
+                elif label == "patlak":
+                    seen["patlak"].add((rec["F"], rec["family"] != 0, rec["uss"], rec["N"] > 1))
                 elif label == "lm":
                     seen["lm"].add((rec["tof"], rec["disk"], rec["batch"] > 0, rec["uss"], rec["N"] > 1))
             elif e in KINDS + ["ValueDiff"] and inst is not None:
@@ -193,7 +198,7 @@ def run(ctx):
                 raise lib.ModelFailure("trace %s is truncated (driver died outside a recorded call)" % t)
         missing = [k for k in KINDS if k not in seen["kinds"]]
         if (len(seen["tof"]) < 3 or len(seen["norm"]) < 5 or not {1, 2, 3, 4} <= seen["N"] or len(seen["fill"]) < 3 or missing
-                or len(seen["flags"]) < 18 or seen["refused"] < 100 or len(seen["real_sw"]) < 4 or len(seen["real_kinds"]) < 6 or len(seen["lm"]) < 8):
+                or len(seen["flags"]) < 18 or seen["refused"] < 100 or len(seen["real_sw"]) < 4 or len(seen["real_kinds"]) < 6 or len(seen["lm"]) < 8 or len(seen["patlak"]) < 6):
             raise lib.ModelFailure("recorded traces do not cover the option space: %s missing=%s" % ({k: (sorted(map(str, v)) if isinstance(v, set) else v) for k, v in seen.items()}, missing))
     ctx.extra["objects"] = nobj
     ctx.exhaustive = False
